@@ -127,6 +127,10 @@ func (x *Exec) call(st *State, fr *Frame, v *ssa.Call) []*State {
 
 func (x *Exec) staticCall(st *State, fr *Frame, v *ssa.Call, callee *ssa.Function, args []Val, bindings []Val) []*State {
 	site := x.siteName(fr, v)
+	if callee.Name() == "init" && strings.Contains(callee.Synthetic, "package initializer") {
+		// initialisers of imported packages only establish their own packages' variables
+		return nil
+	}
 	if fc := x.contractFor(callee); fc != nil && !fc.Inline {
 		x.modularCall(st, fr, v, callee, fc, args, site, nil)
 		return nil
@@ -686,6 +690,20 @@ func (x *Exec) builtin(st *State, fr *Frame, v *ssa.Call, b *ssa.Builtin) []*Sta
 			srcStr = s
 		}
 		x.checkFrame(st, fr, v, dst.Base, elemKey(et, ""))
+		if x.nnElems[typeKey(et)] && srcBase != nil {
+			// the source obeys the declared invariant: none of its elements is nil
+			unf := false
+			for _, u := range st.unfilled {
+				if same(u.base, srcBase) {
+					unf = true
+				}
+			}
+			if !unf {
+				arrT := st.heapArr(elemKey(et, "#tag"), ArrSort(SInt, ArrSort(SInt, SInt)))
+				bv := Sym("b!k", SInt)
+				st.assumeDef(Forall([]*T{bv}, Implies(And(Ge(bv, srcOff), Lt(bv, Add(srcOff, n))), Ne(Select(Select(arrT, srcBase), bv), IntC(0)))))
+			}
+		}
 		for _, l := range x.leaves(et) {
 			key := elemKey(et, l.path)
 			arr := st.heapArr(key, ArrSort(SInt, ArrSort(SInt, l.sort)))
